@@ -80,6 +80,11 @@ def run_tlc(module: str, cfg: Optional[str] = None, *, workers: int = 16, env: O
         res["violation"] = m.group(1)
     if "Error: Temporal properties were violated" in out:
         res["violation"] = "temporal"
+    m = re.search(r"Error: Temporal property (\S+) was violated", out)
+    if m:
+        res["violation"] = m.group(1)
+    if rc in (12, 13) and res["violation"] is None:
+        res["violation"] = "unrecognised (TLC exit %d)" % rc      # never report a violating run as clean
     res["finished"] = "Model checking completed" in out or "Finished in" in out
     res["error"] = None
     if rc not in (0, 12, 13) and res["violation"] is None:
